@@ -30,7 +30,17 @@ pub enum Op {
     /// clean shutdown and restart (new process on the same directories)
     Restart,
     /// the process dies at its `write`-th durable write from now (before or after it); then restart
-    Crash { write: u64, after: bool },
+    /// With `site` (a ckb-freezer fail point: "write-head", "write-index") the process dies at the
+    /// `write`-th hit of that site instead; `torn` additionally loses a seeded part of what the
+    /// freezer files gained since the start of the interrupted pass (nothing was fsynced yet).
+    Crash {
+        write: u64,
+        after: bool,
+        #[serde(default, skip_serializing_if = "Option::is_none")]
+        site: Option<String>,
+        #[serde(default, skip_serializing_if = "std::ops::Not::not")]
+        torn: bool,
+    },
     /// truncate the main chain back to block #b (must be on the main chain)
     Truncate { b: usize },
     /// one freezer pass
@@ -326,7 +336,22 @@ pub fn generate(seed: u64, prop: &str) -> Scenario {
     if prop == "C14" {
         cfg.wlock_cells = r.urange(2, 6);
     }
-    let n = if prop == "C08" { r.urange(6, 24) } else { r.urange(8, 60) };
+    if prop == "C10" {
+        // tiny genesis epoch with the real adjustment and no uncles: epochs double (2,4,8,16...),
+        // so a 40-90 block chain reaches the third epoch and the freezer has work to do
+        // (2 of 3 runs: constant toy epochs of 2-6 blocks, uncles allowed, so that most of the
+        // chain ends up in the freezer)
+        if r.chance(2, 3) {
+            cfg.genesis_epoch_len = *r.pick(&[2u64, 3, 4, 5, 6]);
+            cfg.permanent_difficulty = true;
+            cfg.epoch_duration_target = cfg.genesis_epoch_len * 8;
+        } else {
+            cfg.genesis_epoch_len = *r.pick(&[2u64, 3, 4]);
+            cfg.permanent_difficulty = false;
+            cfg.epoch_duration_target = cfg.genesis_epoch_len * 8;
+        }
+    }
+    let n = if prop == "C08" { r.urange(6, 24) } else if prop == "C10" { r.urange(30, 90) } else { r.urange(8, 60) };
     let rich = prop != "C01" || r.chance(1, 2);
     let invalid = match prop {
         "C01" | "C03" => r.urange(0, 3),
@@ -345,6 +370,14 @@ pub fn generate(seed: u64, prop: &str) -> Scenario {
             t.recipe.new_txs = t.recipe.new_txs.max(1);
             t.recipe.commit = t.recipe.commit.max(2);
             t.recipe.propose = t.recipe.propose.max(2);
+        }
+    }
+    if prop == "C10" {
+        for t in tree.iter_mut() {
+            if !cfg.permanent_difficulty {
+                t.recipe.uncles = 0;
+            }
+            t.recipe.ts_delta = t.recipe.ts_delta.min(20_000);
         }
     }
     if prop == "C14" {
@@ -404,6 +437,20 @@ pub fn generate(seed: u64, prop: &str) -> Scenario {
     } else {
         gen_ops(&mut r, n, true, prop == "C02")
     };
+    if prop == "C10" {
+        // freeze passes at arbitrary points, a few clean restarts
+        let k = r.urange(3, 12);
+        for _ in 0..k {
+            let at = r.idx(ops.len() + 1);
+            ops.insert(at, Op::Freeze);
+        }
+        ops.push(Op::Drain);
+        ops.push(Op::Freeze);
+        for _ in 0..r.urange(0, 2) {
+            let at = r.idx(ops.len() + 1);
+            ops.insert(at, Op::Restart);
+        }
+    }
     if prop == "C20" || (prop == "C02" && r.chance(1, 3)) {
         // clean restarts at arbitrary points
         let k = r.urange(1, 3);
@@ -419,7 +466,7 @@ pub fn generate(seed: u64, prop: &str) -> Scenario {
         cfg,
         tree,
         ops,
-        freezer: false,
+        freezer: prop == "C10",
         store_caches: match r.below(4) {
             0 => Some([0; 6]),
             1 => {
